@@ -118,7 +118,8 @@ def expand(s, home):
     if s is None:
         return None
     if s.startswith("~/"):
-        s = home + "/" + s[2:]
+        rest = s[2:]
+        s = home + rest if rest.startswith("/") else home + "/" + rest      # parsec_os_path adds the separator only when missing
     return s.replace(":~/", ":" + home + "/")
 
 
